@@ -86,17 +86,20 @@ class RecipeBuilder:
             if isinstance(t, DictT):
                 from .state import HeapModel
 
-                dk = self.arr("dkeys")
-                if dk is None or t.k is None:
+                if t.k is None:
                     return {"__dict__": [], "id": ident}
-                kl = self.build(Ref(ListT(t.k)), dk[addr])
-                keys = kl["__list__"] if isinstance(kl, dict) and "__list__" in kl else []
+                dl = self.arr(HeapModel.n_dklen(t.k.sort()))
+                if dl is None:
+                    return {"__dict__": [], "id": ident}
+                n = int(self.num(dl[addr]))
+                if n < 0 or n > MAX_LEN:
+                    raise CannotBuild(f"dict size {n} out of replay range")
+                ka = self.arr(HeapModel.n_dkel(t.k.sort()))
                 ma = self.arr(HeapModel.n_map(t.k.sort(), t.v.sort()))
                 pairs = []
-                ka = self.arr(HeapModel.n_el(t.k.sort()))
-                kladdr = int(self.num(dk[addr]))
-                for i, kj in enumerate(keys):
-                    kt = ka[kladdr][i]
+                for i in range(n):
+                    kt = ka[addr][i]
+                    kj = self.build_elem(t.k, kt)
                     pairs.append([kj, self.build_elem(t.v, ma[addr][kt]) if ma is not None else self.default(t.v)])
                 return {"__dict__": pairs, "id": ident}
             if isinstance(t, ObjT):
